@@ -1,9 +1,10 @@
 SPECIFICATION MCSpec
 CONSTANTS Node = {"A", "B"}
           Msgs = {"ping"}
-          MaxWire = 5
+          MaxWire = 4
           Senders = {"A", "B"}
           Guided = FALSE
+          Spoof = TRUE
           Depth = 0
 INVARIANTS Authentic CurrentSession ResponderKeys KeysPrivate ChallengeOwn
 VIEW View
